@@ -1,7 +1,7 @@
 (* LegalHistFast.v -- the same loop invariant (LegalHistEntry.HInv) for the descendant loop of the FAST engine
-   (Fast.fdescend_one / fentry_set, FastMicroStep.cpp), on charts of WFH whose deep histories have a
-   SINGLE default target (FastOK): FastMicroStep adds the ancestors of the first target of a deep history's
-   default transition only, see fast_deep_history_default_refuted in LegalHistFastRun.v.
+   (Fast.fdescend_one / fentry_set, FastMicroStep.cpp, repaired: the default transition of a deep history
+   gets the ancestors of ALL its targets, see fast_deep_history_default_repaired in LegalHistFastRun.v), on
+   every chart of WFH.
    Differences to the large engine handled here: the test "no descendant in the entry set and (no
    descendant active or a descendant exited)" instead of "no child in the entry set or surviving", the
    <initial> pseudo-state is taken out of the entry set, ancestors are added for every completion member. *)
@@ -21,10 +21,11 @@ Notation pseudo := (pseudoS c).
 
 Hypothesis W : WFH c.
 
-(* the default transition of a deep history names one state *)
-Definition FastOK : Prop :=
-  forall i ti r, deepS c i = true -> fs_trans (st c i) = ti :: r -> exists g, ft_targets (tr c ti) = [g].
-Hypothesis WF1 : FastOK.
+Lemma filter_all_true {A} (f : A -> bool) (l : list A) : (forall x, In x l -> f x = true) -> filter f l = l.
+Proof.
+  induction l as [|x r IH]; intros Hf; cbn [filter]; [reflexivity|].
+  rewrite (Hf x (or_introl eq_refl)). f_equal. apply IH. intros y Hy. apply Hf. now right.
+Qed.
 
 Lemma desc_spec i x : i < n -> x < n -> (In x (desc c i) <-> Anc i x).
 Proof.
@@ -180,28 +181,29 @@ Proof.
       * intros x. rewrite In_set_union, In_set_inter. unfold Rh. tauto.
     + destruct (wh_hist_default c W j q Hhs Hpq) as (ti & r & Htr & Htne & Htg). rewrite Htr. cbn [fst].
       rewrite Hdp in Htg.
-      destruct (WF1 j ti r Hdp Htr) as (g & Hg1). rewrite Hg1 in *.
-      destruct (Htg g (or_introl eq_refl)) as (Hjg & Hgp & Hqg).
-      destruct (wh_tr_targets c W ti g) as [_ Hgn]; [rewrite Hg1; now left|].
-      assert (Hni : intersects [g] (desc c j) = false).
-      { destruct (intersects [g] (desc c j)) eqn:E; [|reflexivity]. exfalso. apply intersects_spec in E as (x & [<-|[]] & Hx).
-        apply (desc_spec j g Hj Hgn) in Hx. exact (pseudo_no_anc c W j g Hps Hx). }
-      rewrite Hni. cbn [negb filter]. apply Nat.ltb_lt in Hjg. rewrite Hjg. apply Nat.ltb_lt in Hjg.
+      assert (Hbelow : forall g, In g (ft_targets (tr c ti)) -> Anc q g) by (intros g Hg; now destruct (Htg g Hg) as (_ & _ & H)).
+      assert (Hni : intersects (ft_targets (tr c ti)) (desc c j) = false).
+      { apply not_true_is_false. intros E. apply intersects_spec in E as (x & Hxt & Hx).
+        destruct (wh_tr_targets c W ti x Hxt) as [_ Hxn].
+        apply (desc_spec j x Hj Hxn) in Hx. exact (pseudo_no_anc c W j x Hps Hx). }
+      rewrite Hni. cbn [negb].
+      assert (Hfil : filter (fun k => j <? k) (ft_targets (tr c ti)) = ft_targets (tr c ti)).
+      { apply filter_all_true. intros g Hg. apply Nat.ltb_lt. now destruct (Htg g Hg) as (A & _). }
+      rewrite Hfil.
       assert (Hqe : In q es) by exact (hi_closed _ _ _ _ _ _ _ HI j q Hm Hpq).
-      assert (Hbelow : forall g', In g' [g] -> Anc q g') by (intros g' [<-|[]]; exact Hqg).
-      apply (HInv_grow c W cfg exitset tg Q Qcomp Qpseudo j es _ q (IC c q [g]) HI Hm).
-      * right. split; [exact Hps|]. split; [exact Hpq|]. intros x [Hqx (g' & [<-|[]] & [->|Hxg])].
-        -- exact Hgp.
+      apply (HInv_grow c W cfg exitset tg Q Qcomp Qpseudo j es _ q (IC c q (ft_targets (tr c ti))) HI Hm).
+      * right. split; [exact Hps|]. split; [exact Hpq|]. intros x [Hqx (g & Hg & [->|Hxg])].
+        -- now destruct (Htg g Hg) as (_ & H & _).
         -- exact (anc_not_pseudo c W x g Hxg).
-      * apply (frag_IC c); [discriminate | exact Hbelow|]. pose proof (wh_target_sets c W ti) as Hts. now rewrite Hg1 in Hts.
-      * intros x [Hqx (g' & [<-|[]] & Hon)]. split.
-        -- exact (inner_gt_leaf c W q j x g Hpq Hps Hqx Hon Hjg).
-        -- destruct Hon as [->|Ha]; [exact Hgn | destruct (hanc_lt c W _ _ Ha); lia].
-      * intros x. rewrite !In_set_union.
-        rewrite <- (full_closed_IC c es q [g] x (hi_closed _ _ _ _ _ _ _ HI) Hqe ltac:(discriminate) Hbelow). cbn [In]. split.
-        -- intros [[H|[<-|[]]]|Hx]; [tauto | right; exists g; split; [now left | now left]|].
-           right. exists g. split; [now left|]. right. now apply (wh_anc c W).
-        -- intros [H|(g' & [<-|[]] & [->|Ha])]; [tauto | tauto|]. right. now apply (wh_anc c W).
+      * apply (frag_IC c); [exact Htne | exact Hbelow | exact (wh_target_sets c W ti)].
+      * intros x [Hqx (g & Hg & Hon)]. destruct (Htg g Hg) as (A & _ & _). split.
+        -- exact (inner_gt_leaf c W q j x g Hpq Hps Hqx Hon A).
+        -- destruct Hon as [->|Ha]; [now destruct (wh_tr_targets c W ti g Hg) | destruct (hanc_lt c W _ _ Ha); destruct (wh_tr_targets c W ti g Hg); lia].
+      * intros x. rewrite In_fold_union, In_set_union.
+        rewrite <- (full_closed_IC c es q _ x (hi_closed _ _ _ _ _ _ _ HI) Hqe Htne Hbelow). split.
+        -- intros [[H|H]|(g & Hg & Hx)]; [tauto | right; exists x; split; [exact H | now left]|].
+           right. exists g. split; [exact Hg|]. right. now apply (wh_anc c W).
+        -- intros [H|(g & Hg & [->|Ha])]; [tauto | tauto|]. right. exists g. split; [exact Hg|]. now apply (wh_anc c W).
   - (* initial: the pseudo-state itself is taken out *)
     assert (Hps : pseudo j = true) by (unfold pseudoS; now rewrite Hk).
     destruct (wh_pseudo_parent c W j Hps) as (q & Hpq & Hkq).
